@@ -65,7 +65,7 @@ HDLR_META = full(b"hdlr", 0, 0, b"\0\0\0\0" + b"mdir" + b"appl" + b"\0" * 8 + b"
 class Layout(object):
     """parameters of a synthesised file; `describe()` is the stable, JSON-able form"""
     FIELDS = ("moov_first", "traks", "udta", "meta", "ilst", "free", "wide", "zero_last", "nmoof", "tfhd_noflag",
-              "ilst_first", "nchunks")
+              "ilst_first", "nchunks", "split")
 
     def __init__(self, **kw):
         self.moov_first = True
@@ -80,6 +80,7 @@ class Layout(object):
         self.tfhd_noflag = False       # add a traf whose tfhd has no base-data-offset
         self.ilst_first = False        # meta = [ilst, hdlr, ...] instead of [hdlr, ilst, ...]
         self.nchunks = 3
+        self.split = False             # mdat, moov, mdat: every table addresses chunks on both sides of moov
         for k, v in kw.items():
             assert k in self.FIELDS, k
             setattr(self, k, v)
@@ -101,13 +102,20 @@ def build(lay):
             chunks.append((t, c, marker("T", t, c)))
     rel = {}
     payload = b"mdat-lead-in"          # media data does not have to start at the first payload byte
+    payload2 = b"second-mdat-lead"     # split layouts: odd chunks live in a second mdat behind moov
     for t, c, m in chunks:
-        rel[(t, c)] = len(payload)
-        payload += m
+        if lay.split and c % 2 == 1:
+            rel[(t, c)] = (1, len(payload2))
+            payload2 += m
+        else:
+            rel[(t, c)] = (0, len(payload))
+            payload += m
     wide = set(lay.wide)
 
     def trak(t, kind, base):
-        entries = [base + rel[(t, c)] for c in range(lay.nchunks)]
+        if not isinstance(base, tuple):
+            base = (base, base)
+        entries = [base[rel[(t, c)][0]] + rel[(t, c)][1] for c in range(lay.nchunks)]
         if kind == "stco":
             table = full(b"stco", 0, 0, struct.pack(">I", len(entries)) + b"".join(struct.pack(">I", e) for e in entries),
                          wide=("table" in wide and t == 0))
@@ -184,7 +192,13 @@ def build(lay):
     mdat_hl = 16 if "mdat" in wide else 8
     frag = lay.nmoof > 0
     tail_free = box(b"free", b"\0" * 3) if ("top-end" in lay.free and not lay.zero_last) else b""
-    if lay.moov_first:
+    if lay.split:
+        mlen = len(moov(0))
+        b1 = len(pre) + mdat_hl
+        first = pre + box(b"mdat", payload, wide=("mdat" in wide)) + mid
+        b2 = len(first) + mlen + 8
+        data = first + moov((b1, b2)) + box(b"mdat", payload2)
+    elif lay.moov_first:
         mlen = len(moov(0))
         base = len(pre) + mlen + len(mid) + mdat_hl
         zero_mdat = lay.zero_last and not frag and not tail_free
@@ -635,6 +649,11 @@ def layouts(ctx):
         add(moov_first=mf, nmoof=1, tfhd_noflag=True, zero_last=True)
         add(moov_first=mf, nmoof=2)
         add(moov_first=mf, nmoof=3, udta="none", meta=False, ilst="none", tfhd_noflag=True)
+    # media data on both sides of moov: one table holds entries that move and entries that stay
+    add(split=True)
+    add(split=True, traks=["co64", "stco"], free=("before-ilst",))
+    add(split=True, udta="none", meta=False, ilst="none", nchunks=5)
+    add(split=True, wide=("moov", "mdat"), free=("after-ilst", "top-mid"))
     # accepted by the parser, unusual child order inside meta
     add(ilst_first=True, free=("meta-far",))
     add(ilst_first=True, free=("after-ilst",))
@@ -651,7 +670,7 @@ def layouts(ctx):
         L.append(Layout(moov_first=rng.random() < 0.5, traks=[rng.choice(["stco", "co64"]) for _ in range(rng.choice([1, 1, 2, 3]))],
                         udta=udta, meta=meta, ilst=ilst, free=free, wide=wide, zero_last=rng.random() < 0.15,
                         nmoof=rng.choice([0, 0, 0, 1, 1, 2, 3]), tfhd_noflag=rng.random() < 0.3,
-                        ilst_first=rng.random() < 0.08, nchunks=rng.choice([1, 3, 5])))
+                        ilst_first=rng.random() < 0.08, nchunks=rng.choice([1, 3, 5]), split=rng.random() < 0.12))
     seen = set(); out = []
     for l in L:
         if l.key() not in seen:
